@@ -235,8 +235,8 @@ fn op_strategy() -> BoxedStrategy<Op> {
         3 => (content_strategy(), prop::bool::weighted(0.3)).prop_map(|(content, reuse_deleted)| Op::Add { content, reuse_deleted }),
         6 => (0u8..4, 0u8..3, 1u8..=9, 1u8..=6, 1u8..=5).prop_map(|(file, kind, seed, rows, mtime_step_s)| Op::Rewrite { file, kind, seed, rows, mtime_step_s }),
         2 => (0u8..4).prop_map(|file| Op::Delete { file }),
-        9 => (0u8..4, 10u8..100, 0u8..(SPELLINGS.len() as u8)).prop_map(|(q, k, spelling)| Op::Query { q, k, spelling }),
-        4 => (0u8..(ADVANCES_MS.len() as u8)).prop_map(|step| Op::Advance { step }),
+        11 => (0u8..4, 10u8..100, 0u8..(SPELLINGS.len() as u8)).prop_map(|(q, k, spelling)| Op::Query { q, k, spelling }),
+        5 => prop_oneof![2 => 0u8..3, 3 => 3u8..(ADVANCES_MS.len() as u8)].prop_map(|step| Op::Advance { step }),
         2 => (0u8..(SPELLINGS.len() as u8), 0u8..(SPELLINGS.len() as u8)).prop_map(|(drop_spelling, create_spelling)| Op::Recreate { drop_spelling, create_spelling }),
     ]
     .boxed()
@@ -301,7 +301,7 @@ impl Property for C40b {
     fn strategy(&self, tier: Tier) -> BoxedStrategy<Case> {
         let max_ops = tier.pick(10usize, 12usize);
         (
-            (prop_oneof![3 => Just(Fmt::Parquet), 1 => Just(Fmt::Csv)], any::<bool>(), prop::bool::weighted(0.8), prop::bool::weighted(0.2)),
+            (prop_oneof![3 => Just(Fmt::Parquet), 1 => Just(Fmt::Csv)], any::<bool>(), prop::bool::weighted(0.8), prop::bool::weighted(0.12)),
             (0u8..3, 0u8..3, 0u8..(SPELLINGS.len() as u8), 1u8..4),
             prop::collection::vec(content_strategy(), 1..4),
             prop::collection::vec(op_strategy(), 2..=max_ops),
@@ -321,7 +321,7 @@ impl Property for C40b {
             .boxed()
     }
     fn budget(&self, tier: Tier) -> Budget {
-        Budget::new(tier.pick(480, 24_000), tier.pick(8, 16)).min_nontrivial(tier.pick(60, 2_000)).case_timeout(180)
+        Budget::new(tier.pick(800, 32_000), tier.pick(8, 16)).min_nontrivial(tier.pick(60, 2_000)).case_timeout(180)
     }
     fn rule(&self) -> String {
         "listing table over a temp dir (Parquet/CSV), all caches on, list-files TTL with an injected clock; history of add / in-place rewrite \
@@ -335,6 +335,29 @@ impl Property for C40b {
             "LocalFileSystem reports the mtime set with File::set_modified and the real size".into(),
             "the list-files cache is filled by CREATE EXTERNAL TABLE (schema inference or statistics pre-warm) and by every planning miss".into(),
         ]
+    }
+    fn known_signature(&self, case: &Case) -> Option<String> {
+        // DROP TABLE under a spelling whose TableReference differs from the one used by CREATE leaves the list-files
+        // entry of the CREATE spelling behind; it is hit again by a later CREATE under that spelling.
+        let class = |s: u8| match SPELLINGS[(s as usize).min(SPELLINGS.len() - 1)].split('.').count() {
+            1 => 0u8,
+            2 => 1,
+            _ => 2,
+        };
+        let mut current = class(case.create_spelling);
+        let mut leaked: BTreeSet<u8> = BTreeSet::new();
+        for op in case.ops.iter().take(12) {
+            if let Op::Recreate { drop_spelling, create_spelling } = op {
+                if class(*drop_spelling) != current {
+                    leaked.insert(current);
+                }
+                current = class(*create_spelling);
+                if leaked.contains(&current) {
+                    return Some("drop-spelling-leaks-listing".into());
+                }
+            }
+        }
+        None
     }
     fn run(&self, case: &Case) -> CaseResult {
         let rt = match tokio::runtime::Builder::new_current_thread().enable_all().build() {
